@@ -102,6 +102,17 @@ pub proof fn lemma_cb_injective(s: &str, p: int, q: int)
 '''
 
 
+ENTRY = r'''
+/// R-outline: `MAP.entry(K).or_insert(V);` / `MAP.entry(K).or_insert_with(|| V);` - inserts only when the key is
+/// absent (trusted std semantics of the BTreeMap entry API; V is a pure constructor expression, so building it
+/// eagerly is the same)
+#[verifier::external_body]
+pub fn vx_or_insert<V>(map: &mut BTreeMap<usize, V>, k: usize, v: V)
+    ensures final(map)@ == (if old(map)@.contains_key(k) { old(map)@ } else { old(map)@.insert(k, v) }),
+{ unimplemented!() }
+'''
+
+
 def build():
     u = Unit('u_utf8', serves=['C12'])
     u.use('use std::collections::BTreeMap;')
@@ -115,6 +126,7 @@ def build():
     u.item(R, 'struct', 'TextResource', keep_fields=['text', 'textlen', 'positionindex', 'byte2charmap'], keep_derives=[],
            rewrites=[('R-vis', r'\b(text|textlen|positionindex|byte2charmap):', r'pub \1:')])
     u.trusted_text(MODEL2 + MODEL, 'external_body abstract text model: cps/blen (char_indices, str::len), vx_char_index_pairs, vx_str_from (&text[b..] with the boundary obligation), vx_last_below (BTreeMap::range(..).next_back()), vx_text')
+    u.trusted_text(ENTRY, 'external_body vx_or_insert: BTreeMap entry API semantics (or_insert / or_insert_with of a constructor expression)')
     u.spec(INV, 'contracts/u_utf8.py:INV')
     OUTLINES = [
         ('R-outline', r'self\s*\.positionindex\s*\.0\s*\.range\(\(Included\(&0\), Excluded\(&abscursor\)\)\)\s*\.next_back\(\)', 'vx_last_below(&self.positionindex.0, abscursor)'),
@@ -161,12 +173,19 @@ def build():
         Fn('create_milestones', props=P,
            rewrites=[('R-outline', r'for \(charpos, \(bytepos, _\)\) in self\.text\.char_indices\(\)\.enumerate\(\) \{',
                       'let vx_pairs = vx_char_index_pairs(vx_text(&self.text)); for vx_p in vx_it: vx_pairs.iter() { let (charpos, bytepos) = *vx_p;'),
-                     ('R-smallvec', r'smallvec!\(\)', 'vec![]')],
+                     ('R-smallvec', r'smallvec!\(\)', 'vec![]'),
+                     ('R-outline', r'self\s*\.positionindex\s*\.0\s*\.entry\(charpos\)\s*\.or_insert_with\(\|\| (PositionIndexItem \{.*?\})\);',
+                      r'vx_or_insert(&mut self.positionindex.0, charpos, \1);', 'opt'),
+                     ('R-outline', r'self\.byte2charmap\.entry\(bytepos\)\.or_insert\(charpos\);', 'vx_or_insert(&mut self.byte2charmap, bytepos, charpos);', 'opt')],
            requires=[('interval', 'interval > 0'), ('index_ok', 'old(self).idx_ok()')],
            ensures=[('index_ok', 'final(self).idx_ok()'), ('text_frame', 'final(self).text == old(self).text && final(self).textlen == old(self).textlen'),
-                    ('only_adds_positions', 'forall|p: usize| old(self).positionindex.0@.contains_key(p) ==> #[trigger] final(self).positionindex.0@.contains_key(p)')],
+                    ('existing_entries_untouched', 'forall|p: usize| old(self).positionindex.0@.contains_key(p) ==> #[trigger] final(self).positionindex.0@.contains_key(p) && final(self).positionindex.0@[p] == old(self).positionindex.0@[p]'),
+                    ('existing_bytes_untouched', 'forall|b: usize| old(self).byte2charmap@.contains_key(b) ==> #[trigger] final(self).byte2charmap@.contains_key(b) && final(self).byte2charmap@[b] == old(self).byte2charmap@[b]'),
+                    ('new_entries_are_bare', 'forall|p: usize| final(self).positionindex.0@.contains_key(p) && !old(self).positionindex.0@.contains_key(p) ==> (#[trigger] final(self).positionindex.0@[p]).begin2end@.len() == 0 && final(self).positionindex.0@[p].end2begin@.len() == 0')],
            loops={0: dict(invariant=[('pairs', 'vx_pairs@.len() == cps(self.txt()).len() && forall|i: int| 0 <= i < vx_pairs@.len() ==> (#[trigger] vx_pairs@[i]) == (i as usize, cps(self.txt())[i])'),
                                      ('ok', 'self.idx_ok() && self.text == old(self).text && self.textlen == old(self).textlen && interval > 0'),
-                                     ('keeps', 'forall|p: usize| old(self).positionindex.0@.contains_key(p) ==> #[trigger] self.positionindex.0@.contains_key(p)')])}),
+                                     ('keeps', 'forall|p: usize| old(self).positionindex.0@.contains_key(p) ==> #[trigger] self.positionindex.0@.contains_key(p) && self.positionindex.0@[p] == old(self).positionindex.0@[p]'),
+                                     ('keeps_bytes', 'forall|b: usize| old(self).byte2charmap@.contains_key(b) ==> #[trigger] self.byte2charmap@.contains_key(b) && self.byte2charmap@[b] == old(self).byte2charmap@[b]'),
+                                     ('bare', 'forall|p: usize| self.positionindex.0@.contains_key(p) && !old(self).positionindex.0@.contains_key(p) ==> (#[trigger] self.positionindex.0@[p]).begin2end@.len() == 0 && self.positionindex.0@[p].end2begin@.len() == 0')])}),
     ])
     return u
